@@ -500,3 +500,8 @@ Qed.
 
 Lemma timeout_ns_example : timeout_ns 3 = 3000000000 /\ timeout_ns 60 = 60000000000 /\ timeout_ns 2147483647 = 2147483647000000000.
 Proof. repeat split; vm_compute; reflexivity. Qed.
+
+
+(* position of the VM's deadline test: nothing executes between a positive test and the loop exit *)
+Lemma vm_deadline_stops_at_once_proof : vm_instrs_after_deadline_test = 0 /\ vm_deadline_test_after_switch = true.
+Proof. split; reflexivity. Qed.
